@@ -43,12 +43,15 @@ func (t *LocalTransport) Dispatch(update *Update) error {
 	}
 
 	AssignUUID(update)
+
+	// The subscriber list must not be matched while it is modified or matched concurrently
+	t.Lock()
+	defer t.Unlock()
+
 	for _, s := range t.subscribers.MatchAny(update) {
 		s.Dispatch(update, false)
 	}
-	t.Lock()
 	t.lastEventID = update.ID
-	t.Unlock()
 
 	return nil
 }
